@@ -45,6 +45,7 @@ pub struct LoadOutcome {
 }
 
 fn load_one(bytes: &[u8], strict: bool) -> Result<Loaded, ErrInfo> {
+    let _watch = watch_case(bytes, if strict { "load_buffer(strict)" } else { "load_buffer(lenient)" });
     let m = AutosarModel::new();
     match m.load_buffer(bytes, "test.arxml", strict) {
         Ok((f, w)) => Ok(Loaded { tree: extract_model(&m), version: f.version(), standalone: f.xml_standalone(), warnings: w.iter().map(err_info).collect() }),
@@ -56,6 +57,7 @@ fn load_one(bytes: &[u8], strict: bool) -> Result<Loaded, ErrInfo> {
 pub fn run_all(bytes: &[u8]) -> Result<LoadOutcome, (String, String)> {
     let strict = no_panic(|| load_one(bytes, true)).map_err(|p| ("load_buffer(strict)".to_string(), p))?;
     let lenient = no_panic(|| load_one(bytes, false)).map_err(|p| ("load_buffer(lenient)".to_string(), p))?;
+    let _watch_cb = watch_case(bytes, "check_buffer");
     let check = no_panic(|| check_buffer(bytes)).map_err(|p| ("check_buffer".to_string(), p))?;
     Ok(LoadOutcome { strict, lenient, check })
 }
